@@ -64,7 +64,15 @@ def theorem_status(prop_file):
     path = os.path.join(COQ, "Props", prop_file)
     if not os.path.exists(path):
         return False, [], "missing " + path
-    rc, out = sh("timeout 900 coqc -Q . BT Props/%s 2>&1" % prop_file, cwd=COQ)
+    # compiled to a private directory: the re-check of one property never writes a file another running check reads
+    import tempfile
+    tmp = tempfile.mkdtemp(prefix="props_", dir=os.path.join(VERIF, "work"))
+    try:
+        rc, out = sh("timeout 900 coqc -Q . BT -noglob -o %s Props/%s 2>&1"
+                     % (os.path.join(tmp, prop_file[:-2] + ".vo"), prop_file), cwd=COQ)
+    finally:
+        import shutil
+        shutil.rmtree(tmp, ignore_errors=True)
     text = open(path).read()
     names = re.findall(r"^Print Assumptions\s+([A-Za-z0-9_']+)\s*\.", text, flags=re.M)
     blocks = []
